@@ -35,6 +35,11 @@ def run(ctx):
     rule_siblings(ctx, 'C10.R2', m2, m1)
     rule_bins(ctx, 'C10.R4')
     rule_dimchecks(ctx, 'C10.R5')
+    # the spectrum is computed from the arrays as canonicalised by ensure_2d: a vector becomes one column, anything
+    # with two or more axes (also a single time sample of several components) is passed on unchanged, values untouched
+    from . import c19
+    c19.rule_shape_classes(ctx, 'C10.R6', names=('ensure_2d',))
+    c19.rule_layout_only(ctx, 'C10.R6', names=('ensure_2d',))
     l1.rule_lib_attrs(ctx, 'L1', [HH, HH1, 'emd.spectra.define_hist_bins', 'emd.spectra.define_hist_bins_from_data'],
                       'Hilbert-Huang spectrum')
 
